@@ -67,7 +67,7 @@ class LSFScriptAdapter(SchedulerScriptAdapter):
 
         :param **kwargs: A dictionary with default settings for the adapter.
         """
-        super(LSFScriptAdapter, self).__init__()
+        super(LSFScriptAdapter, self).__init__(**kwargs)
 
         # NOTE: Host doesn't seem to matter for LSF
         self.add_batch_parameter("host", kwargs.pop("host"))
